@@ -483,6 +483,51 @@ def r8_symmetry_test(ctx):
     ctx.check(kinds == {"r", "c", "v"}, "_is_symmetric: rows, columns and values of the two triangles are all compared", S.ret_node(), sorted(kinds))
 
 
+def r9_no_byte_reinterpretation(ctx):
+    """Binary files may be in either byte order: the loaders read numbers through struct formats / numpy dtypes that carry the file's byte
+    order (`self._endian + ...`).  A value array obtained that way must never be *reinterpreted* (`.view(dtype)`, `np.frombuffer`, `.tobytes`
+    round trips, `.byteswap`/`.newbyteorder` without the matching dtype change) on its way into the matrix: a native-dtype view of
+    byte-swapped data yields garbage of the right shape.  Who-may rule over every function reachable from the binary loader; expected count 0."""
+    mod = ctx.src.mod(OP4)
+    # call graph restricted to methods of OP4 (self.x / OP4.x / bare names of the class)
+    meth = {q.split(".", 1)[1]: f for q, f in mod.funcs.items() if q.startswith("OP4.") and q.count(".") == 1}
+    seen, work = set(), ["_loadop4_binary"]
+    while work:
+        nm = work.pop()
+        if nm in seen or nm not in meth:
+            continue
+        seen.add(nm)
+        for c in ast.walk(meth[nm]):
+            if isinstance(c, ast.Attribute) and isinstance(c.value, ast.Name) and c.value.id in ("self", "OP4") and c.attr in meth:
+                work.append(c.attr)
+            if isinstance(c, ast.Name) and c.id in meth:
+                work.append(c.id)
+    n = 0
+    for nm in sorted(seen):
+        fn = meth[nm]
+        for c in ast.walk(fn):
+            if not isinstance(c, ast.Call):
+                continue
+            d = dotted(c.func) or ""
+            bad = None
+            if isinstance(c.func, ast.Attribute) and c.func.attr == "view" and (c.args or c.keywords):
+                bad = "`.view(dtype)` reinterprets the bytes in native order"
+            elif isinstance(c.func, ast.Attribute) and c.func.attr in ("byteswap", "newbyteorder", "tobytes"):
+                bad = f"`.{c.func.attr}()` on values read in the file's byte order"
+            elif d in ("np.frombuffer",) and not any("endian" in ast.unparse(a) or "frm" in ast.unparse(a) or "numform" in ast.unparse(a) for a in list(c.args[1:]) + [k.value for k in c.keywords]):
+                bad = "`np.frombuffer` without the file's byte-order-qualified dtype"
+            if bad:
+                n += 1
+                ctx.fail("binary loaders never reinterpret the bytes of values read in the file's byte order", c,
+                         f"OP4.{nm}: {bad}: `{ast.unparse(c)[:100]}` (non-native files decode to garbage of the right shape)",
+                         key=f"C04-R9|OP4.{nm}|{ast.unparse(c.func)[:40]}")
+    ctx.check(len(seen) >= 8, f"byte-reinterpretation rule scanned {len(seen)} methods reachable from _loadop4_binary", meth.get("_loadop4_binary"), sorted(seen),
+              nontrivial=False)
+    if not n:
+        ctx.ok("binary loaders never reinterpret the bytes of values read in the file's byte order (no .view(dtype) / byteswap / frombuffer on the way "
+               "into the matrix)", meth.get("_loadop4_binary"))
+
+
 RULES = [
     ("C04-R1", r1_ascii_field, 6),
     ("C04-R2", r2_headers, 10),
@@ -490,6 +535,7 @@ RULES = [
     ("C04-R4", r4_ranges_and_dispatch, 10),
     ("C04-R7", r7_input_canonical, 10),
     ("C04-R8", r8_symmetry_test, 4),
+    ("C04-R9", r9_no_byte_reinterpretation, 2),
 ]
 LEVEL = "other"
 EXPLANATION = ("Static reader/writer agreement for OUTPUT4: header column tables, string-header encode/decode inverses (symbolic, with 2^16 packing), "
@@ -501,7 +547,8 @@ MANIFEST = {
             "nwords/reclen equal what readers consume, every layout switch uses the same rows >= 65536 boundary, the packed IS and the ASCII number "
             "field are checked over the whole value domain (two known findings: F1 ASCII field one character short for negative 3-digit exponents, "
             "F2 IS overflows int32 for strings >= 16384 rows), sparse input is canonicalised, and the sparse symmetry test that decides form 6 is "
-            "mirror-symmetric under transposition (sort orders included). Not decided: float() parsing exactness, "
+            "mirror-symmetric under transposition (sort orders included), no method reachable from the binary loader reinterprets bytes read in the "
+            "file's byte order. Not decided: float() parsing exactness, "
             "_sparse_col_stats on arbitrary patterns, scipy.sparse behaviour.",
     "note": "Trusted: CPython ast; verifier/e2_formula.py polynomial arithmetic with the bit-operator model of verifier/op4_model.py (<< k = * 2^k; >> k and & "
             "(2^k - 1) resolved only when the low part is declared below 2^k: first row + 1 <= rows < 2^16 for the nonbigmat layout).",
